@@ -497,6 +497,40 @@ fn record_c15(b: &mut Batch, r: &mut StdRng, trace_id: usize) {
         "modes": describe_modes(&modes), "inputs": []}));
 }
 
+/// The repository's own configurations on the repository's own inputs (sliced to `max_chars`
+/// characters): plain scans, plus a second pass with positions for the multi-line ones.
+fn record_corpus(b: &mut Batch, r: &mut StdRng, max_chars: usize) -> usize {
+    let mut trace = 0;
+    let drain = Profile { drain: true, ..profile("c01") };
+    let hist = Profile { max_iters: 1, ..profile("c10") };
+    for f in crate::dump::corpus_files() {
+        let modes = crate::dump::modes_from_json_file(&f);
+        let input_path = if f.ends_with("veryl_modes.json") { "/repo/scnr/benches/veryl_input.veryl".to_string() } else { f.replace(".json", ".input") };
+        let mut texts = vec![];
+        if let Ok(t) = std::fs::read_to_string(&input_path) {
+            let n = t.chars().count();
+            // a slice from the start and one from a random position (whole input if short enough)
+            texts.push(t.chars().take(max_chars).collect::<String>());
+            if n > max_chars {
+                let start = r.gen_range(0..n - max_chars);
+                texts.push(t.chars().skip(start).take(max_chars).collect::<String>());
+            }
+        }
+        if f.ends_with("parol.json") {
+            if let Ok(t) = std::fs::read_to_string("/repo/scnr/benches/input_1.par") {
+                texts.push(t.chars().take(max_chars).collect::<String>());
+            }
+        }
+        for t in texts {
+            trace += 1;
+            record_one(b, r, &drain, &modes, &[t.clone()], trace);
+            trace += 1;
+            record_one(b, r, &hist, &modes, &[t.chars().take(max_chars / 4).collect()], trace);
+        }
+    }
+    trace
+}
+
 /// `record <profile> <n traces> <seed> <out dir>`
 pub fn main(args: &[String]) -> i32 {
     if args[0] == "c15" {
@@ -510,6 +544,16 @@ pub fn main(args: &[String]) -> i32 {
         b.write(&args[3]);
         println!("{}", json!({"traces": n, "events": b.events.len(), "cfgs": b.cfgs.len(), "inputs": b.inputs.len()}));
         return 0;
+    }
+    if args[0] == "corpus" {
+        let n: usize = args[1].parse().unwrap(); // characters per slice
+        let seed: u64 = args[2].parse().unwrap();
+        let mut r = StdRng::seed_from_u64(seed ^ 0xc0c0);
+        let mut b = Batch::new();
+        let traces = record_corpus(&mut b, &mut r, n);
+        b.write(&args[3]);
+        println!("{}", json!({"traces": traces, "events": b.events.len(), "cfgs": b.cfgs.len(), "inputs": b.inputs.len()}));
+        return if crate::HARNESS_ERRORS.load(std::sync::atomic::Ordering::SeqCst) > 0 { 2 } else { 0 };
     }
     let p = profile(&args[0]);
     let n: usize = args[1].parse().unwrap();
